@@ -189,6 +189,9 @@ impl AllocationQueue {
 
     pub fn resume(&mut self) {
         self.state = AllocationQueueState::Active;
+        // If the queue was paused because of too many failures, it would be paused again
+        // by the next scheduling tick without getting a chance to submit anything
+        self.rate_limiter.reset_fail_counters();
     }
 
     pub fn manager(&self) -> &ManagerType {
@@ -528,6 +531,12 @@ impl RateLimiter {
             }
             None => RateLimiterStatus::Ok,
         }
+    }
+
+    /// Forget the failures seen so far (the current delay between submissions stays in effect).
+    pub fn reset_fail_counters(&mut self) {
+        self.allocation_fails = 0;
+        self.submission_fails = 0;
     }
 
     fn increase_delay(&mut self) {
